@@ -71,6 +71,9 @@ func Bytes(tag string, n int) []byte {
 
 // Choose returns a value in [0,n): an exhaustive solver-free fork.
 func Choose(tag string, n int) int {
+	if n <= 1 {
+		return 0 // a single alternative is not recorded as a choice
+	}
 	if replay == nil || nchoice >= len(replay.Choices) {
 		return 0
 	}
